@@ -684,7 +684,7 @@ def r_find(ck: Checker) -> None:
                 and any(isinstance(c, ast.Call) and isinstance(c.func, ast.Attribute) and c.func.attr == "match" for c in walk_body(lp.body))
                 and any(isinstance(r, ast.Return) for r in walk_body(lp.body))]
     if own_walk and not any(isinstance(c, ast.Call) and isinstance(c.func, ast.Attribute) and c.func.attr == "findall" for c in walk_body(fn.body)):
-        ck.violation("R-XP-FIND", f, own_walk[0], what, construct="find: returns the first node of its own traversal that match() accepts instead of the first node findall() yields "
+        ck.violation("R-XP-FIND", f, own_walk[0], what, positive=True, construct="find: returns the first node of its own traversal that match() accepts instead of the first node findall() yields "
                      "(the two orders differ, e.g. for '//A/B' with an A nested in an earlier A)")
         return
     leaves = decision_tree(strip_docstring([st for st in fn.body if not isinstance(st, (ast.Import, ast.ImportFrom))]), resolve="calls", try_as_body=True)
@@ -763,7 +763,7 @@ def r_empty_step(ck: Checker, modname: str = XP) -> None:
     on_values = [k for k in bad[0].assign if k.startswith("is(None,")]
     if on_values:
         ck.violation("R-XP-ELEMENTS", f, f.node, what, evaluations=len(leaves),
-                     construct=f"element: the marker is returned when {', '.join(on_values)[:80]} (what the children happened to contain), not when there are no children: "
+                     positive=True, construct=f"element: the marker is returned when {', '.join(on_values)[:80]} (what the children happened to contain), not when there are no children: "
                      "a step of empty brackets `/[]/` is taken for `//`")
     else:
         raise Unsupported(f"XPathTransformer.element: the marker is returned on the path {bad[0].assign}", f.node)
